@@ -112,7 +112,11 @@ def run(ctx):
     for path, lemma in (("wtransport::connection::Connection::max_datagram_size::{closure#0}", None),
                         ("wtransport::datagram::Datagram::read", "suffix"), ("wtransport::datagram::Datagram::write", "prefix-sum"),
                         ("wtransport_proto::datagram::Datagram::write_size", "sum"), ("wtransport_proto::bytes::BufferReader::buffer_remaining", None)):
-        fn = A.fn(path)
+        fn = A.fn_opt(path)
+        if fn is None and path.endswith("::{closure#0}"):
+            fn = A.fn(path[:-len("::{closure#0}")])   # the closure was folded into its parent (`?` + straight-line code)
+        elif fn is None:
+            fn = A.fn(path)
         for o in obligations.collect(fn):
             if not o.kind.startswith("Overflow"):
                 continue
